@@ -150,6 +150,8 @@ struct NetCfg {
     jitter: u64,
     send_block_pct: u64,
     segments: usize,
+    /// seeded transient `ConnectionReset` errors of `poll_recv` (quinn ignores them: ICMP-induced, forgeable)
+    recv_reset_pct: u64,
 }
 
 struct Spawn {
@@ -179,6 +181,11 @@ struct WorldInner {
     delivered: u64,
     send_blocks: u64,
     timer_fires: u64,
+    /// fault injection: from now on `poll_recv` / `poll_send` of this side fail with a fatal I/O error
+    recv_fail: [bool; 2],
+    send_fail: [bool; 2],
+    io_errors: u64,
+    transient_errors: u64,
 }
 
 #[derive(Clone)]
@@ -354,6 +361,14 @@ impl AsyncUdpSocket for SimSocket {
     }
     fn poll_recv(&mut self, cx: &mut Context<'_>, bufs: &mut [IoSliceMut<'_>], meta: &mut [RecvMeta]) -> Poll<io::Result<usize>> {
         let mut w = self.w.l();
+        if w.recv_fail[self.side] {
+            w.io_errors += 1;
+            return Poll::Ready(Err(io::Error::other("asyncsim: injected fatal receive error")));
+        }
+        if w.net.recv_reset_pct > 0 && !w.inbox[self.side].is_empty() && w.rng.below(100) < w.net.recv_reset_pct {
+            w.transient_errors += 1;
+            return Poll::Ready(Err(io::Error::from(io::ErrorKind::ConnectionReset)));
+        }
         let mut n = 0;
         while n < bufs.len().min(meta.len()) {
             let Some(d) = w.inbox[self.side].pop_front() else { break };
@@ -398,6 +413,10 @@ impl UdpSender for SimSender {
         let side = self.side;
         let wc = self.w.clone();
         let mut w = wc.l();
+        if w.send_fail[side] {
+            w.io_errors += 1;
+            return Poll::Ready(Err(io::Error::other("asyncsim: injected fatal send error")));
+        }
         // seeded "socket not writable": register the caller, become writable a little later
         if let Some(id) = self.blocked {
             if let Some(ent) = w.timers.get_mut(&id) {
@@ -710,6 +729,9 @@ enum End {
     Finish,
     FinishAwaitStopped,
     DropNoFinish,
+    /// write only the first `reset_at` bytes, then `SendStream::reset(code)` — with `stopped()` futures of the
+    /// stream pending in other tasks
+    Reset(u32),
 }
 
 #[derive(Clone, Copy, Debug, PartialEq, Eq)]
@@ -719,6 +741,8 @@ enum Fate {
     DropEarly(u64),
     /// explicit stop(code) once this many bytes were read
     Stop(u64),
+    /// do not read: await `received_reset()` (only for streams the writer resets)
+    AwaitReset,
 }
 
 #[derive(Clone, Debug)]
@@ -734,6 +758,9 @@ struct Job {
     watch_stopped: bool,
     wchunk: usize,
     rchunk: usize,
+    /// End::Reset: bytes written before the reset; whether the handle is kept (and a fresh `stopped()` awaited)
+    reset_at: usize,
+    reset_keep: bool,
 }
 
 #[derive(Clone, Debug)]
@@ -767,6 +794,10 @@ enum CloseKind {
     DropHandles(usize),
     EndpointClose(usize),
     IdleTimeout,
+    /// this side's socket starts failing `poll_recv` with a fatal error: its endpoint driver terminates
+    RecvError(usize),
+    /// this side's `UdpSender::poll_send` starts failing with a fatal error
+    SendError(usize),
 }
 
 #[derive(Clone, Copy, Debug, PartialEq, Eq)]
@@ -806,6 +837,64 @@ struct Plan {
     /// concurrent Endpoint::accept waiters on the server and further (refused) connection attempts of the client
     k_ep_accept: usize,
     extra_connects: usize,
+    /// this case is a 0-RTT case (replaces the generic workload)
+    zrtt: Option<ZrttPlan>,
+}
+
+/// what is done, after the handshake, with the SendStream handle of an early (0-RTT) stream that the server
+/// rejected; the handle is dropped afterwards
+#[derive(Clone, Copy, Debug, PartialEq, Eq)]
+enum Act {
+    Write,
+    Stopped,
+    Finish,
+    SetPriority,
+    Reset,
+}
+
+/// a first connection obtains a session ticket; the second one starts with `Connecting::into_0rtt`: early
+/// streams (the first `n_bi` bidirectional, then `n_uni` unidirectional) are opened and written before the
+/// handshake completes. The server accepts the early data (same TLS state) or rejects it (server config with
+/// fresh TLS state installed between the connections). After a rejection the client opens the same number of
+/// streams again (they get the SAME ids) and uses them while the early handles are still used and then dropped.
+#[derive(Clone, Debug)]
+struct ZrttPlan {
+    reject: bool,
+    n_bi: usize,
+    n_uni: usize,
+    early_len: Vec<usize>,
+    len: Vec<usize>,
+    back_len: Vec<usize>,
+    acts: Vec<Vec<Act>>,
+    /// the early handles are used this long after the new streams were started
+    act_at: u64,
+    /// `RecvStream::stop` on the early receive half BEFORE the handshake completes
+    stop_early_recv: Vec<bool>,
+    /// a `stopped()` future of the early stream is pending across the end of the handshake
+    pend_stopped: Vec<bool>,
+    server_0rtt: bool,
+    wchunk: usize,
+}
+
+fn gen_zrtt(rng: &mut Rng) -> ZrttPlan {
+    let n_bi = rng.below(3) as usize;
+    let n_uni = if n_bi == 0 { 1 + rng.below(3) as usize } else { rng.below(3) as usize };
+    let n = n_bi + n_uni;
+    let all = [Act::Write, Act::Stopped, Act::Finish, Act::SetPriority, Act::Reset];
+    ZrttPlan {
+        reject: rng.chance(2, 3),
+        n_bi,
+        n_uni,
+        early_len: (0..n).map(|_| 1 + rng.below(900) as usize).collect(),
+        len: (0..n).map(|_| 12_000 + rng.below(40_000) as usize).collect(),
+        back_len: (0..n).map(|_| 1 + rng.below(20_000) as usize).collect(),
+        acts: (0..n).map(|_| (0..rng.below(4)).map(|_| *rng.pick(&all)).collect()).collect(),
+        act_at: 5 * MS + rng.below(20 * MS),
+        stop_early_recv: (0..n).map(|_| rng.chance(1, 4)).collect(),
+        pend_stopped: (0..n).map(|_| rng.chance(1, 2)).collect(),
+        server_0rtt: rng.chance(1, 2),
+        wchunk: *rng.pick(&[700usize, 3000, 70_000]),
+    }
 }
 
 fn gen_job(rng: &mut Rng, id: &mut usize) -> Job {
@@ -842,6 +931,26 @@ fn gen_job(rng: &mut Rng, id: &mut usize) -> Job {
         watch_stopped: rng.chance(1, 2),
         wchunk: *rng.pick(&[1usize, 100, 1000, 5000, 70_000]),
         rchunk: *rng.pick(&[1usize, 7, 500, 4096, 70_000]),
+        reset_at: 0,
+        reset_keep: false,
+    }
+}
+
+/// turn a job into one whose writer resets the stream locally (with `stopped()` watchers pending)
+fn make_reset_job(rng: &mut Rng, j: &mut Job) {
+    j.end = End::Reset(9);
+    j.reset_at = match rng.below(4) {
+        0 => 0,
+        1 => j.len,
+        _ => rng.below(j.len as u64 + 1) as usize,
+    };
+    j.reset_keep = rng.chance(1, 2);
+    j.watch_stopped = rng.chance(5, 6);
+    if rng.chance(1, 3) {
+        // (nobody reads this stream: what is written before the reset must fit every flow-control window)
+        j.fate = Fate::AwaitReset;
+        j.rcancel = rng.chance(1, 2);
+        j.reset_at = j.reset_at.min(400);
     }
 }
 
@@ -878,6 +987,7 @@ fn gen_plan(rng: &mut Rng) -> Plan {
         jitter: *rng.pick(&[0u64, 200_000, 2 * MS, 4 * MS]),
         send_block_pct: *rng.pick(&[0u64, 0, 2, 10]),
         segments: *rng.pick(&[1usize, 4]),
+        recv_reset_pct: 0,
     };
     let side = rng.below(2) as usize;
     let close = match rng.below(8) {
@@ -905,6 +1015,7 @@ fn gen_plan(rng: &mut Rng) -> Plan {
         unit_gaps: false,
         k_ep_accept: 1,
         extra_connects: 0,
+        zrtt: None,
     };
     // ---- about a third of the cases: 2-3 CONCURRENT waiter tasks on the same condition, for every wait of the
     // API that goes through a shared Notify; the peer satisfies the condition one unit at a time, with pauses, so
@@ -971,6 +1082,43 @@ fn gen_plan(rng: &mut Rng) -> Plan {
             }
         }
     }
+    // ---- local resets (SendStream::reset with stopped() pending elsewhere; RecvStream::received_reset)
+    for o in 0..2 {
+        let SidePlan { bi, uni, .. } = &mut plan.sides[o];
+        for sp in bi.iter_mut().chain(uni.iter_mut()) {
+            for j in std::iter::once(&mut sp.fwd).chain(sp.bwd.iter_mut()) {
+                if rng.chance(1, 6) {
+                    make_reset_job(rng, j);
+                }
+            }
+        }
+    }
+    // ---- I/O faults instead of an orderly close (a sixth of the cases)
+    if rng.chance(1, 6) {
+        let s = rng.below(2) as usize;
+        plan.close = if rng.chance(2, 3) { CloseKind::RecvError(s) } else { CloseKind::SendError(s) };
+        plan.mid = if rng.chance(1, 2) { Some(if rng.chance(1, 3) { rng.below(40) } else { rng.below(3000) }) } else { None };
+        if plan.drop_endpoint_early == Some(s) {
+            plan.drop_endpoint_early = None;
+        }
+    }
+    plan.net.recv_reset_pct = *rng.pick(&[0u64, 0, 0, 5]);
+    // ---- 0-RTT cases (a fifth): resumption with early data, accepted or rejected
+    if rng.chance(1, 5) {
+        plan.zrtt = Some(gen_zrtt(rng));
+        plan.sides = [SidePlan::default(), SidePlan::default()];
+        plan.multi = false;
+        plan.k_ep_accept = 1;
+        plan.extra_connects = 0;
+        plan.mid = None;
+        for t in plan.tc.iter_mut() {
+            // early streams must fit what the client remembers; small stream windows park the later writers
+            t.max_bi = 100;
+            t.max_uni = 100;
+            t.stream_rwnd = *rng.pick(&[1500u32, 4096]);
+            t.rwnd = t.rwnd.max(100_000);
+        }
+    }
     plan
 }
 
@@ -991,6 +1139,10 @@ struct JobRes {
     r_cancels: u64,
     bad: bool,
     stopped: Option<String>,
+    reset_seen: Option<String>,
+    /// the writer called reset(); a FRESH stopped() issued afterwards completed with this
+    reset_done: bool,
+    fresh_stopped: Option<String>,
 }
 
 #[derive(Default)]
@@ -1236,8 +1388,29 @@ async fn reader(mut ctx: Ctx, job: Job, mut recv: RecvStream) {
     let limit = match job.fate {
         Fate::ReadAll => u64::MAX,
         Fate::DropEarly(n) | Fate::Stop(n) => n,
+        Fate::AwaitReset => 0,
     };
-    while got < limit || job.fate == Fate::ReadAll {
+    if job.fate == Fate::AwaitReset {
+        // the writer resets this stream (RESET_STREAM is delivered reliably): received_reset() must complete,
+        // and with the writer's code — nobody reads, stops or finishes the stream
+        let want = match job.end {
+            End::Reset(c) => c,
+            _ => unreachable!("AwaitReset only with a resetting writer"),
+        };
+        let lbl = format!("received_reset job={}", job.id);
+        let r = cancelable!(ctx, &lbl, Some(slot), job.rcancel, recv.received_reset());
+        match &r {
+            Ok(Some(c)) if *c == VarInt::from_u32(want) => ctx.count("result:received-reset"),
+            Ok(other) => {
+                if !ctx.closing() {
+                    ctx.fail("c18-reset-not-observed", format!("job {}: the writer reset the stream with code {want}, received_reset() yielded {other:?}", job.id));
+                }
+            }
+            Err(e) => err = Some(format!("{e:?}")),
+        }
+        ctx.job(job.id, |j| j.reset_seen = Some(format!("{r:?}")));
+    }
+    while job.fate != Fate::AwaitReset && (got < limit || job.fate == Fate::ReadAll) {
         match job.rmode {
             RMode::Read => match cancelable!(ctx, &label, Some(slot), job.rcancel, recv.read(&mut buf)) {
                 Ok(Some(n)) => {
@@ -1318,7 +1491,7 @@ async fn reader(mut ctx: Ctx, job: Job, mut recv: RecvStream) {
         }
     }
     match job.fate {
-        Fate::ReadAll => {}
+        Fate::ReadAll | Fate::AwaitReset => {}
         Fate::DropEarly(_) => {
             if !fin && err.is_none() {
                 // leave a registration behind: poll one read, drop it while Pending, then drop the handle
@@ -1354,6 +1527,11 @@ async fn reader(mut ctx: Ctx, job: Job, mut recv: RecvStream) {
             let _ = e;
             None
         }
+        // a writer that resets the stream: the reader sees exactly that reset
+        (Some(e), _) if matches!(job.end, End::Reset(c) if e.contains(&format!("Reset({c})"))) => {
+            ctx.count("result:read-reset");
+            None
+        }
         // the writer resets the stream when it is dropped after our stop: only possible after a stop
         (Some(e), _) => Some(e.clone()),
     };
@@ -1374,7 +1552,7 @@ async fn reader(mut ctx: Ctx, job: Job, mut recv: RecvStream) {
     ctx.idle_gap().await;
 }
 
-async fn writer(mut ctx: Ctx, job: Job, mut send: SendStream) {
+async fn writer(mut ctx: Ctx, side: usize, job: Job, mut send: SendStream) {
     let slot = (job.id as u64, 1u8);
     let label = format!("write job={} mode={:?}", job.id, job.wmode);
     let data = job_data(&job);
@@ -1385,18 +1563,30 @@ async fn writer(mut ctx: Ctx, job: Job, mut send: SendStream) {
     for w in 0..nwatch {
         let fut = send.stopped();
         let id = job.id;
-        ctx.spawn(format!("app:stopped{w}:job{id}"), Class::Job, move |c| async move {
+        let fate = job.fate;
+        ctx.spawn(format!("app:{}:stopped{w}:job{id}", SIDE[side]), Class::Job, move |c| async move {
             c.set_op(&format!("stopped job={id} waiter {w}/{nwatch}"));
             let r = fut.await;
             match &r {
-                Ok(_) => c.count("result:stopped-ok"),
+                Ok(v) => {
+                    c.count("result:stopped-ok");
+                    // the code can only be the one the reader used: stop(7), or 0 for a dropped RecvStream
+                    let ok = match v {
+                        None => true,
+                        Some(x) => (*x == VarInt::from_u32(7) && matches!(fate, Fate::Stop(_))) || (*x == VarInt::from_u32(0) && matches!(fate, Fate::DropEarly(_))),
+                    };
+                    if !ok && !c.closing() {
+                        c.fail("c18-stopped-wrong-value", format!("stopped() of job {id} yielded {v:?}, reader fate {fate:?}"));
+                    }
+                }
                 Err(e) => c.conn_err(&format!("stopped() job {id}"), format!("{e:?}")),
             }
             c.job(id, |j| j.stopped = Some(format!("{r:?}")));
         });
     }
-    while off < data.len() {
-        let k = job.wchunk.max(1).min(data.len() - off);
+    let wlimit = if matches!(job.end, End::Reset(_)) { job.reset_at.min(data.len()) } else { data.len() };
+    while off < wlimit {
+        let k = job.wchunk.max(1).min(wlimit - off);
         let r: Result<usize, WriteError> = match job.wmode {
             WMode::Write => cancelable!(ctx, &label, Some(slot), job.wcancel, send.write(&data[off..off + k])),
             WMode::WriteAll => {
@@ -1439,6 +1629,27 @@ async fn writer(mut ctx: Ctx, job: Job, mut send: SendStream) {
             }
         }
         End::DropNoFinish => ctx.count("drop:sendstream-unfinished"),
+        End::Reset(code) => {
+            // local reset while stopped() futures of this stream are pending in other tasks
+            let r = send.reset(VarInt::from_u32(code));
+            ctx.count(if r.is_ok() { "op:reset" } else { "op:reset-closed" });
+            ctx.job(job.id, |j| j.reset_done = true);
+            if job.reset_keep {
+                // keep the handle for several round trips (RESET_STREAM acknowledged by then), then ask again
+                ctx.set_op("idle after reset");
+                ctx.tw.info.lock().unwrap().mode = Mode::Idle;
+                let until = ctx.w.now() + 150 * MS + ctx.rng.below(100 * MS);
+                Sleep { w: ctx.w.clone(), until, id: None }.await;
+                ctx.tw.info.lock().unwrap().mode = Mode::Busy;
+                ctx.set_op(&format!("stopped(fresh, after reset) job={}", job.id));
+                let r = send.stopped().await;
+                match &r {
+                    Ok(_) => ctx.count("result:stopped-ok"),
+                    Err(e) => ctx.conn_err(&format!("stopped() job {}", job.id), format!("{e:?}")),
+                }
+                ctx.job(job.id, |j| j.fresh_stopped = Some(format!("{r:?}")));
+            }
+        }
     }
     drop(send);
     ctx.clear_credit(slot);
@@ -1497,7 +1708,7 @@ async fn opener(mut ctx: Ctx, side: usize, conn: Connection, bi: bool, w: usize,
         ctx.unit(format!("open:{}:{}:{idx}", SIDE[side], bi));
         let sp = plans[idx].clone();
         let f = sp.fwd.clone();
-        ctx.spawn(format!("app:{}:writer:job{}", SIDE[side], f.id), Class::Job, move |c| writer(c, f, send));
+        ctx.spawn(format!("app:{}:writer:job{}", SIDE[side], f.id), Class::Job, move |c| writer(c, side, f, send));
         if let (Some(r), Some(b)) = (recv, sp.bwd.clone()) {
             ctx.spawn(format!("app:{}:reader:job{}", SIDE[side], b.id), Class::Job, move |c| reader(c, b, r));
         }
@@ -1557,7 +1768,7 @@ async fn acceptor(mut ctx: Ctx, side: usize, conn: Connection, bi: bool, w: usiz
         let f = plans[idx].fwd.clone();
         ctx.spawn(format!("app:{}:reader:job{}", SIDE[side], f.id), Class::Job, move |c| reader(c, f, recv));
         if let (Some(s), Some(b)) = (send, plans[idx].bwd.clone()) {
-            ctx.spawn(format!("app:{}:writer:job{}", SIDE[side], b.id), Class::Job, move |c| writer(c, b, s));
+            ctx.spawn(format!("app:{}:writer:job{}", SIDE[side], b.id), Class::Job, move |c| writer(c, side, b, s));
         }
         j += 1;
         if ctx.took(&group) == plans.len() && trailing {
@@ -1856,6 +2067,489 @@ async fn server_main(mut ctx: Ctx, ep: Endpoint, w: usize, k: usize, quota: usiz
 }
 
 // ------------------------------------------------------------------------------------------------
+// 0-RTT cases
+// ------------------------------------------------------------------------------------------------
+
+const Z_EARLY: u64 = 100;
+const Z_NEW: u64 = 200;
+const Z_BACK: u64 = 300;
+const KEY_0RTT_EFFECT: &str = "c18-0rtt-rejected-handle-affects-new-stream";
+const KEY_0RTT_REPORT: &str = "c18-0rtt-rejection-not-reported";
+
+fn zdata(job: u64, len: usize) -> Vec<u8> {
+    (0..len as u64).map(|o| content_byte(job, o)).collect()
+}
+
+async fn zsleep(ctx: &mut Ctx, ns: u64) {
+    ctx.tw.info.lock().unwrap().mode = Mode::Idle;
+    let until = ctx.w.now() + ns;
+    Sleep { w: ctx.w.clone(), until, id: None }.await;
+    ctx.tw.info.lock().unwrap().mode = Mode::Busy;
+}
+
+fn register_conn(ctx: &mut Ctx, side: usize, conn: &Connection) {
+    ctx.h.lock().unwrap().conn[side] = Some(conn.clone());
+    ctx.log.lock().unwrap().connected[side] = true;
+    let c = conn.clone();
+    ctx.spawn(format!("app:{}:closed0", SIDE[side]), Class::UntilClose, move |x| closed_watcher(x, side, c, 0, 1));
+    let c = conn.clone();
+    ctx.spawn(format!("app:{}:confirmed0", SIDE[side]), Class::Job, move |x| confirmed_watcher(x, c, 0, 1));
+}
+
+/// reads one stream to its end and compares with `job`'s content; `who` names the reader in failures
+async fn zreader(mut ctx: Ctx, who: String, job: u64, len: usize, mut recv: RecvStream, delay: u64, key: &'static str, stop_ok: bool) {
+    if delay > 0 {
+        ctx.set_op("reader delay");
+        zsleep(&mut ctx, delay).await;
+    }
+    ctx.set_op(&format!("read {who}"));
+    let mut got = 0usize;
+    let mut buf = vec![0u8; 3000];
+    let exp = zdata(job, len);
+    loop {
+        match recv.read(&mut buf).await {
+            Ok(Some(n)) => {
+                if got + n > len || buf[..n] != exp[got..got + n] {
+                    if !ctx.closing() {
+                        let early = (0..n).all(|i| buf[i] == content_byte(job - Z_NEW + Z_EARLY, (got + i) as u64));
+                        ctx.fail(if job >= Z_NEW && job < Z_BACK && early && n >= 4 { "c18-0rtt-rejected-data-visible" } else { "c18-data-corrupt" }, format!("{who}: {n} bytes at offset {got} differ from the content of job {job}"));
+                    }
+                    return;
+                }
+                got += n;
+            }
+            Ok(None) => break,
+            Err(e) => {
+                let e = format!("{e:?}");
+                if stop_ok && e.contains("ZeroRttRejected") {
+                    ctx.count("zrtt:early-read-rejected");
+                } else if !ctx.closing() {
+                    ctx.fail(key, format!("{who}: read failed with {e} after {got} of {len} bytes although nobody reset the stream or closed"));
+                } else {
+                    ctx.count("result:error-after-close");
+                }
+                return;
+            }
+        }
+    }
+    if got != len && !ctx.closing() {
+        ctx.fail(key, format!("{who}: the stream ended after {got} of the {len} bytes its writer sends before finishing"));
+    }
+    ctx.count("zrtt:stream-read");
+}
+
+/// writes `data[from..]`, finishes, awaits stopped(); every failure is reported under `key`
+async fn zwriter(mut ctx: Ctx, who: String, data: Vec<u8>, from: usize, mut send: SendStream, delay: u64, key: &'static str, stopped_ok: bool, chunk: usize) {
+    if delay > 0 {
+        ctx.set_op("writer delay");
+        zsleep(&mut ctx, delay).await;
+    }
+    ctx.set_op(&format!("write {who}"));
+    let mut off = from;
+    while off < data.len() {
+        let k = chunk.min(data.len() - off);
+        match send.write(&data[off..off + k]).await {
+            Ok(n) => off += n,
+            Err(e) => {
+                let e = format!("{e:?}");
+                if stopped_ok && e.starts_with("Stopped") {
+                    ctx.count("result:write-stopped");
+                } else if !ctx.closing() {
+                    ctx.fail(key, format!("{who}: write failed with {e} at offset {off} of {} although nobody stopped, finished or reset this stream", data.len()));
+                } else {
+                    ctx.count("result:error-after-close");
+                }
+                return;
+            }
+        }
+    }
+    match send.priority() {
+        Ok(0) => {}
+        other => {
+            if !ctx.closing() {
+                ctx.fail(key, format!("{who}: priority() = {other:?}, nobody changed the priority of this stream"));
+            }
+        }
+    }
+    if let Err(e) = send.finish() {
+        if !ctx.closing() {
+            ctx.fail(key, format!("{who}: finish() failed with {e:?}: somebody else finished or reset this stream"));
+        }
+        return;
+    }
+    ctx.set_op(&format!("stopped(after finish) {who}"));
+    match send.stopped().await {
+        Ok(None) => ctx.count("zrtt:stream-written"),
+        Ok(Some(c)) if stopped_ok => {
+            let _ = c;
+            ctx.count("result:write-stopped")
+        }
+        other => {
+            if !ctx.closing() {
+                ctx.fail(key, format!("{who}: stopped() after finish yielded {other:?}"));
+            }
+        }
+    }
+}
+
+async fn zrtt_client_main(mut ctx: Ctx, ep: Endpoint, cfg: ClientConfig, server: SocketAddr, scfg2: Option<quinn::ServerConfig>) {
+    let z = ctx.plan.zrtt.clone().unwrap();
+    let n = z.n_bi + z.n_uni;
+    // ---- first connection: obtain a session ticket
+    ctx.set_op("connect (first connection)");
+    let c1 = match ep.connect_with(cfg.clone(), server, "localhost") {
+        Ok(c) => c.await,
+        Err(e) => {
+            ctx.fail("c18-unexpected-error", format!("connect_with: {e:?}"));
+            return;
+        }
+    };
+    let c1 = match c1 {
+        Ok(c) => c,
+        Err(e) => {
+            ctx.conn_err("connect (first connection)", err_kind(&e));
+            return;
+        }
+    };
+    ctx.set_op("handshake_confirmed (first connection)");
+    let _ = c1.handshake_confirmed().await;
+    ctx.set_op("waiting for the session ticket");
+    let d = 30 * MS + ctx.rng.below(100 * MS);
+    zsleep(&mut ctx, d).await;
+    c1.close(VarInt::from_u32(0), b"");
+    ctx.set_op("closed (first connection)");
+    let _ = c1.closed().await;
+    drop(c1);
+    zsleep(&mut ctx, 5 * MS).await;
+    // ---- the server keeps or loses its TLS state
+    if let Some(s2) = scfg2 {
+        let e = ctx.h.lock().unwrap().endpoint[SERVER].clone();
+        if let Some(e) = e {
+            e.set_server_config(Some(s2));
+        }
+    }
+    // ---- second connection
+    ctx.set_op("connect (second connection)");
+    let connecting = match ep.connect_with(cfg.clone(), server, "localhost") {
+        Ok(c) => c,
+        Err(e) => {
+            if !ctx.closing() {
+                ctx.fail("c18-unexpected-error", format!("connect_with: {e:?}"));
+            }
+            return;
+        }
+    };
+    drop(ep);
+    let (conn, early) = match connecting.into_0rtt() {
+        Ok(c) => (c, true),
+        Err(connecting) => match connecting.await {
+            Ok(c) => (c, false),
+            Err(e) => {
+                ctx.conn_err("connect (second connection)", err_kind(&e));
+                return;
+            }
+        },
+    };
+    ctx.count(if early { "zrtt:early-keys" } else { "zrtt:no-keys" });
+    register_conn(&mut ctx, CLIENT, &conn);
+    // ---- early streams, written before the handshake completes
+    let mut sends: Vec<SendStream> = Vec::new();
+    let mut recvs: Vec<Option<RecvStream>> = Vec::new();
+    for i in 0..n {
+        ctx.set_op(&format!("open early stream {i}"));
+        let r = if i < z.n_bi { conn.open_bi().await.map(|(s, r)| (s, Some(r))) } else { conn.open_uni().await.map(|s| (s, None)) };
+        let (mut s, r) = match r {
+            Ok(x) => x,
+            Err(e) => {
+                ctx.conn_err("open (early)", err_kind(&e));
+                return;
+            }
+        };
+        ctx.set_op(&format!("write early stream {i}"));
+        if let Err(e) = s.write_all(&zdata(Z_EARLY + i as u64, z.early_len[i])).await {
+            ctx.conn_err("write (early)", format!("{e:?}"));
+            return;
+        }
+        sends.push(s);
+        recvs.push(r);
+    }
+    let rejected = early && z.reject;
+    // futures of early handles pending across the end of the handshake
+    for i in 0..n {
+        if z.pend_stopped[i] {
+            let fut = sends[i].stopped();
+            ctx.spawn(format!("app:client:early_stopped{i}"), Class::Job, move |c| async move {
+                c.set_op(&format!("stopped (early handle of stream {i}, pending across the handshake)"));
+                let r = fut.await;
+                match (&r, rejected) {
+                    (Err(quinn::StoppedError::ZeroRttRejected), true) => c.count("zrtt:early-stopped-rejected"),
+                    (Ok(_), false) => c.count("result:stopped-ok"),
+                    (other, _) => {
+                        if !c.closing() {
+                            c.fail(if rejected { KEY_0RTT_REPORT } else { "c18-unexpected-error" }, format!("stopped() of early stream {i} (0-RTT rejected: {rejected}) yielded {other:?}"));
+                        }
+                    }
+                }
+            });
+        }
+        // the early receive half: stopped before the handshake ends, or read from (pending across the handshake)
+        if let Some(mut r) = recvs[i].take() {
+            let stop_first = z.stop_early_recv[i];
+            let act_at = z.act_at;
+            let blen = z.back_len[i];
+            ctx.spawn(format!("app:client:early_recv{i}"), Class::Job, move |mut c| async move {
+                if stop_first {
+                    let _ = r.stop(VarInt::from_u32(3));
+                    c.count("zrtt:early-recv-stopped");
+                    if rejected {
+                        // kept across the rejection, dropped while the new stream with the same id is being read
+                        c.set_op("authenticated (holding a stopped early RecvStream)");
+                        let conn = c.h.lock().unwrap().conn[CLIENT].clone();
+                        if let Some(conn) = conn {
+                            let _ = conn.authenticated().await;
+                        }
+                        c.set_op("holding a stopped early RecvStream");
+                        zsleep(&mut c, act_at).await;
+                    }
+                    drop(r);
+                    return;
+                }
+                if !rejected {
+                    // accepted (or no early data at all): this IS the reader of the server's data
+                    zreader(c, format!("client stream {i} (server to client)"), Z_BACK + i as u64, blen, r, 0, "c18-unexpected-error", false).await;
+                    return;
+                }
+                c.set_op(&format!("read (early handle of stream {i}, pending across the handshake)"));
+                let mut buf = [0u8; 100];
+                match r.read(&mut buf).await {
+                    Err(quinn::ReadError::ZeroRttRejected) => c.count("zrtt:early-read-rejected"),
+                    other => {
+                        if !c.closing() {
+                            c.fail(KEY_0RTT_REPORT, format!("read() on the early RecvStream of stream {i} after the rejection yielded {other:?}"));
+                        }
+                    }
+                }
+                c.set_op("holding a rejected early RecvStream");
+                zsleep(&mut c, act_at).await;
+                if c.rng.chance(1, 2) {
+                    let _ = r.stop(VarInt::from_u32(4));
+                }
+                if c.rng.chance(1, 2) {
+                    match r.received_reset().await {
+                        Err(quinn::ResetError::ZeroRttRejected) => {}
+                        other => {
+                            if !c.closing() {
+                                c.fail(KEY_0RTT_REPORT, format!("received_reset() on the early RecvStream of stream {i} yielded {other:?}"));
+                            }
+                        }
+                    }
+                }
+                drop(r);
+                c.set_op("idle after drop");
+                c.idle_gap().await;
+            });
+        }
+    }
+    ctx.set_op("authenticated");
+    if let Err(e) = conn.authenticated().await {
+        ctx.conn_err("authenticated", err_kind(&e));
+        return;
+    }
+    if !rejected {
+        // ---- accepted (or never early): the early handles simply go on
+        ctx.count(if early { "zrtt:accepted" } else { "zrtt:plain" });
+        for (i, s) in sends.into_iter().enumerate() {
+            let data = zdata(Z_EARLY + i as u64, z.len[i]);
+            let from = z.early_len[i];
+            let chunk = z.wchunk;
+            ctx.spawn(format!("app:client:zwriter{i}"), Class::Job, move |c| zwriter(c, format!("client stream {i} (opened in 0-RTT)"), data, from, s, 0, "c18-unexpected-error", false, chunk));
+        }
+        return;
+    }
+    // ---- rejected: nothing of the early streams exists any more; stream numbering restarts
+    ctx.count("zrtt:rejected");
+    for i in 0..n {
+        ctx.set_op(&format!("open new stream {i}"));
+        let r = if i < z.n_bi { conn.open_bi().await.map(|(s, r)| (s, Some(r))) } else { conn.open_uni().await.map(|s| (s, None)) };
+        let (s, r) = match r {
+            Ok(x) => x,
+            Err(e) => {
+                ctx.conn_err("open (after rejection)", err_kind(&e));
+                return;
+            }
+        };
+        if s.id() != sends[i].id() {
+            ctx.fail("c18-0rtt-numbering-not-restarted", format!("stream {i} opened after the rejection has id {}, the early one had {}", s.id(), sends[i].id()));
+        }
+        let data = zdata(Z_NEW + i as u64, z.len[i]);
+        let chunk = z.wchunk;
+        ctx.spawn(format!("app:client:zwriter{i}"), Class::Job, move |c| zwriter(c, format!("client stream {i} (opened after the 0-RTT rejection, same id as the early one)"), data, 0, s, 0, KEY_0RTT_EFFECT, false, chunk));
+        if let Some(r) = r {
+            let blen = z.back_len[i];
+            ctx.spawn(format!("app:client:zreader{i}"), Class::Job, move |c| zreader(c, format!("client stream {i} (server to client, opened after the 0-RTT rejection)"), Z_BACK + i as u64, blen, r, 0, KEY_0RTT_EFFECT, false));
+        }
+    }
+    // ---- the early SendStream handles are used once more while the new streams are busy, then dropped
+    ctx.set_op("holding rejected early SendStreams");
+    zsleep(&mut ctx, z.act_at).await;
+    for (i, mut s) in sends.into_iter().enumerate() {
+        for a in z.acts[i].iter() {
+            ctx.set_op(&format!("early handle of stream {i}: {a:?}"));
+            ctx.count(&format!("zrtt:act:{a:?}"));
+            match a {
+                Act::Write => match s.write(&[0xEE; 10]).await {
+                    Err(WriteError::ZeroRttRejected) => {}
+                    other => {
+                        if !ctx.closing() {
+                            ctx.fail(if other.is_ok() { KEY_0RTT_EFFECT } else { KEY_0RTT_REPORT }, format!("write() on the early SendStream of stream {i} after the rejection yielded {other:?}"));
+                        }
+                    }
+                },
+                Act::Stopped => match s.stopped().await {
+                    Err(quinn::StoppedError::ZeroRttRejected) => {}
+                    other => {
+                        if !ctx.closing() {
+                            ctx.fail(KEY_0RTT_REPORT, format!("stopped() on the early SendStream of stream {i} after the rejection yielded {other:?}"));
+                        }
+                    }
+                },
+                // (these cannot report the rejection through their error type: judged by their effect)
+                Act::Finish => {
+                    let _ = s.finish();
+                }
+                Act::SetPriority => {
+                    let _ = s.set_priority(7);
+                }
+                Act::Reset => {
+                    let _ = s.reset(VarInt::from_u32(5));
+                }
+            }
+        }
+        ctx.count("zrtt:early-send-dropped");
+        drop(s);
+    }
+    drop(conn);
+    ctx.set_op("idle after drop");
+    ctx.idle_gap().await;
+}
+
+async fn zrtt_server_main(mut ctx: Ctx, ep: Endpoint) {
+    let z = ctx.plan.zrtt.clone().unwrap();
+    let kind = ctx.plan.incoming;
+    let mut nconn = 0usize;
+    loop {
+        let inc = cancelable!(ctx, "endpoint.accept", None, true, ep.accept());
+        let Some(inc) = inc else {
+            ctx.count("result:accept-none");
+            break;
+        };
+        if kind == IncomingKind::RetryFirst && !inc.remote_address_validated() && inc.may_retry() {
+            ctx.count("op:incoming-retry");
+            let _ = inc.retry();
+            continue;
+        }
+        nconn += 1;
+        match nconn {
+            // (not judged: when the client's CONNECTION_CLOSE is lost this connection lives until its idle timeout)
+            1 => ctx.spawn("app:server:first_conn".into(), Class::EndpointLevel, move |c| async move {
+                c.set_op("first connection: handshake");
+                let conn = match inc.accept() {
+                    Ok(x) => x.await,
+                    Err(e) => Err(e),
+                };
+                if let Ok(conn) = conn {
+                    c.set_op("first connection: closed");
+                    let _ = conn.closed().await;
+                }
+            }),
+            2 => {
+                let z = z.clone();
+                ctx.spawn("app:server:handshake".into(), Class::Job, move |mut c| async move {
+                    c.set_op("second connection: handshake");
+                    let connecting = match inc.accept() {
+                        Ok(x) => x,
+                        Err(e) => {
+                            c.conn_err("server accept", err_kind(&e));
+                            return;
+                        }
+                    };
+                    let conn = if z.server_0rtt {
+                        match connecting.into_0rtt() {
+                            Ok(conn) => conn,
+                            Err(_) => unreachable!("into_0rtt always succeeds on the server"),
+                        }
+                    } else {
+                        match connecting.await {
+                            Ok(conn) => conn,
+                            Err(e) => {
+                                c.conn_err("server handshake", err_kind(&e));
+                                return;
+                            }
+                        }
+                    };
+                    register_conn(&mut c, SERVER, &conn);
+                    // what the streams carry: the early job when the early data is accepted, the new one after a rejection
+                    let base = if z.reject { Z_NEW } else { Z_EARLY };
+                    let delay = if z.reject { 40 * MS } else { 0 };
+                    for bi in [true, false] {
+                        let conn = conn.clone();
+                        let z = z.clone();
+                        let count = if bi { z.n_bi } else { z.n_uni };
+                        let class = if count > 0 { Class::Job } else { Class::UntilClose };
+                        c.spawn(format!("app:server:zaccept_{}", if bi { "bi" } else { "uni" }), class, move |mut c| async move {
+                            let mut j = 0;
+                            loop {
+                                if j >= count {
+                                    c.set_class(Class::UntilClose);
+                                }
+                                c.set_op(if bi { "accept_bi" } else { "accept_uni" });
+                                let (s, r) = if bi {
+                                    match conn.accept_bi().await {
+                                        Ok((s, r)) => (Some(s), r),
+                                        Err(e) => {
+                                            c.conn_err("accept_bi", err_kind(&e));
+                                            return;
+                                        }
+                                    }
+                                } else {
+                                    match conn.accept_uni().await {
+                                        Ok(r) => (None, r),
+                                        Err(e) => {
+                                            c.conn_err("accept_uni", err_kind(&e));
+                                            return;
+                                        }
+                                    }
+                                };
+                                let idx = r.id().index() as usize;
+                                let i = if bi { idx } else { z.n_bi + idx };
+                                if j >= count || idx >= count {
+                                    c.fail("c18-accept-order", format!("server accepted stream index {idx} ({}), the client uses only {count}", if bi { "bi" } else { "uni" }));
+                                    return;
+                                }
+                                c.unit(format!("zaccept:{bi}:{idx}"));
+                                let who = format!("server stream {i} (client to server, 0-RTT rejected: {})", z.reject);
+                                let len = z.len[i];
+                                c.spawn(format!("app:server:zreader{i}"), Class::Job, move |c| zreader(c, who, base + i as u64, len, r, delay, if z.reject { KEY_0RTT_EFFECT } else { "c18-unexpected-error" }, false));
+                                if let Some(s) = s {
+                                    let data = zdata(Z_BACK + i as u64, z.back_len[i]);
+                                    let stop_ok = z.stop_early_recv[i] && !z.reject;
+                                    c.spawn(format!("app:server:zwriter{i}"), Class::Job, move |c| zwriter(c, format!("server stream {i} (server to client)"), data, 0, s, delay, if z.reject { KEY_0RTT_EFFECT } else { "c18-unexpected-error" }, stop_ok, 3000));
+                                }
+                                j += 1;
+                            }
+                        });
+                    }
+                });
+            }
+            _ => {
+                ctx.count("op:incoming-refuse");
+                inc.refuse();
+            }
+        }
+    }
+}
+
+// ------------------------------------------------------------------------------------------------
 // controller: phases of one case, oracles
 // ------------------------------------------------------------------------------------------------
 
@@ -1960,6 +2654,10 @@ fn run_case(seed: u64, case: u64) -> CaseOut {
         delivered: 0,
         send_blocks: 0,
         timer_fires: 0,
+        recv_fail: [false; 2],
+        send_fail: [false; 2],
+        io_errors: 0,
+        transient_errors: 0,
     })));
     let log: Log = Arc::new(Mutex::new(CaseLog::default()));
     let hs: Hs = Arc::new(Mutex::new(Handles::default()));
@@ -1988,13 +2686,21 @@ fn run_case(seed: u64, case: u64) -> CaseOut {
     {
         let mut root = Ctx { w: world.clone(), tw: TaskWaker::new(Class::Job), log: log.clone(), h: hs.clone(), rng: Rng::new(rng.next()), plan: plan.clone() };
         let (e1, e2) = (epc.clone(), eps.clone());
-        root.spawn("app:client:main0".into(), Class::Job, move |c| client_main(c, e1, ccfg, addrs[SERVER]));
-        let q = quotas(&mut rng, 1 + plan.extra_connects, plan.k_ep_accept);
-        let k = q.len();
-        for (w, quota) in q.into_iter().enumerate() {
+        if let Some(z) = plan.zrtt.as_ref() {
+            // a server config with FRESH TLS state (new ticket keys): installed between the two connections
+            let scfg2 = if z.reject { Some(server_config(cseed ^ 0x99, transport(&plan.tc[SERVER]), &clock)) } else { None };
+            root.spawn("app:client:main0".into(), Class::Job, move |c| zrtt_client_main(c, e1, ccfg, addrs[SERVER], scfg2));
             let e = e2.clone();
-            let class = if k > 1 { Class::Job } else { Class::EndpointLevel };
-            root.spawn(format!("app:server:main{w}"), class, move |c| server_main(c, e, w, k, quota));
+            root.spawn("app:server:main0".into(), Class::EndpointLevel, move |c| zrtt_server_main(c, e));
+        } else {
+            root.spawn("app:client:main0".into(), Class::Job, move |c| client_main(c, e1, ccfg, addrs[SERVER]));
+            let q = quotas(&mut rng, 1 + plan.extra_connects, plan.k_ep_accept);
+            let k = q.len();
+            for (w, quota) in q.into_iter().enumerate() {
+                let e = e2.clone();
+                let class = if k > 1 { Class::Job } else { Class::EndpointLevel };
+                root.spawn(format!("app:server:main{w}"), class, move |c| server_main(c, e, w, k, quota));
+            }
         }
         drop(e2);
         let mut h = hs.lock().unwrap();
@@ -2006,7 +2712,7 @@ fn run_case(seed: u64, case: u64) -> CaseOut {
 
     // ---- phase 1: workload
     let closer = match plan.close {
-        CloseKind::Explicit(s) | CloseKind::DropHandles(s) | CloseKind::EndpointClose(s) => s,
+        CloseKind::Explicit(s) | CloseKind::DropHandles(s) | CloseKind::EndpointClose(s) | CloseKind::RecvError(s) | CloseKind::SendError(s) => s,
         CloseKind::IdleTimeout => CLIENT,
     };
     let mut connected_at: Option<u64> = None;
@@ -2022,6 +2728,27 @@ fn run_case(seed: u64, case: u64) -> CaseOut {
         None => false,
     });
     let mut graceful = false;
+    let mut end = end;
+    // An opener stuck at quiescence: is stream credit available at the peer but not ANNOUNCED? quinn-proto queues
+    // MAX_STREAMS for credit freed by `RecvStream::stop` on a stream whose final size is already known only at the
+    // end of the next incoming packet. Make each side send one packet (a MAX_DATA raise) and look again: an
+    // opener that gets going now was not failed by the wake protocol.
+    if matches!(end, RunEnd::Deep | RunEnd::Quiescent) {
+        let before = pending_tasks(&ex, |t, c| c == Class::Job && t.op().starts_with("open_"));
+        if !before.is_empty() {
+            for side in 0..2 {
+                let c = hs.lock().unwrap().conn[side].clone();
+                if let Some(c) = c {
+                    c.set_receive_window(VarInt::from_u32(plan.tc[side].rwnd.saturating_mul(4).min(1 << 30)));
+                }
+            }
+            end = run(&mut ex, true, far, &mut |_| false);
+            let after = pending_tasks(&ex, |t, c| c == Class::Job && t.op().starts_with("open_"));
+            if after != before {
+                fail("c18-stream-credit-announced-only-after-next-packet", format!("quiescent with the connection open: stream openers were parked although the peer had freed a stream (stop() after the final size was known); the MAX_STREAMS frame went out only after an unrelated packet arrived there; parked: {}", before.join(" | ")));
+            }
+        }
+    }
     match end {
         RunEnd::Cond => {}
         RunEnd::Deep | RunEnd::Quiescent => {
@@ -2057,10 +2784,27 @@ fn run_case(seed: u64, case: u64) -> CaseOut {
                     }
                 }
             }
+            // signature: stopped() registered before a LOCAL reset of the stream, still pending although the
+            // RESET_STREAM was acknowledged long ago (a fresh stopped() of the same stream completes at once)
+            let mut after_reset = Vec::new();
+            {
+                let l = log.lock().unwrap();
+                for (id, r) in l.jobs.iter() {
+                    if r.reset_done {
+                        let pat = format!("[stopped job={id} waiter ");
+                        after_reset.extend(stuck.iter().filter(|s| s.contains(&pat)).map(|s| format!("{s} (fresh stopped() after the reset: {:?})", r.fresh_stopped)));
+                    }
+                }
+            }
+            let rest: Vec<String> = stuck.iter().filter(|s| !after_stop.contains(s) && !after_reset.iter().any(|a| a.starts_with(s.as_str()))).cloned().collect();
             if !after_stop.is_empty() {
-                fail("c18-lost-wakeup-write-after-stop", format!("quiescent with the connection open: write() still pending on a stream whose reader stopped it (STOP_SENDING delivered: the write can only fail with Stopped); stuck: {}; also pending: {}", after_stop.join(" | "), stuck.iter().filter(|s| !after_stop.contains(s)).cloned().collect::<Vec<_>>().join(" | ")));
-            } else if !stuck.is_empty() {
-                fail("c18-lost-wakeup", format!("quiescent (no ready task, no timer within 5 s) with the connection open, network fair, nobody closed; stuck: {}", stuck.join(" | ")));
+                fail("c18-lost-wakeup-write-after-stop", format!("quiescent with the connection open: write() still pending on a stream whose reader stopped it (STOP_SENDING delivered: the write can only fail with Stopped); stuck: {}", after_stop.join(" | ")));
+            }
+            if !after_reset.is_empty() {
+                fail("c18-lost-wakeup-stopped-after-reset", format!("quiescent with the connection open: stopped() still pending on a stream that was reset locally and whose reset was acknowledged; stuck: {}", after_reset.join(" | ")));
+            }
+            if !rest.is_empty() {
+                fail("c18-lost-wakeup", format!("quiescent (no ready task, no timer within 5 s) with the connection open, network fair, nobody closed; stuck: {}", rest.join(" | ")));
             }
             // datagram readers: pending is fine unless the connection holds datagrams they were not given
             for side in 0..2 {
@@ -2090,7 +2834,15 @@ fn run_case(seed: u64, case: u64) -> CaseOut {
                     continue;
                 }
                 let cancels = job.rcancel || job.wcancel;
-                if r.w_err.is_none() && r.written == job.len as u64 && job.fate == Fate::ReadAll && r.r_err.is_none() {
+                if matches!(job.end, End::Reset(_)) {
+                    // a reset stream: the reader may see any prefix of what was written, never more
+                    if r.read > r.written && (r.w_err.is_none() || matches!(job.wmode, WMode::Write | WMode::WriteChunks)) {
+                        out.push((if cancels { "c18-cancel-duplicated-data" } else { "c18-data-duplicated" }, format!("job {}: {} bytes written before the reset, {} read", job.id, r.written, r.read)));
+                    }
+                    if job.fate == Fate::ReadAll && r.r_err.is_none() && r.fin {
+                        out.push(("c18-reset-not-observed", format!("job {}: the writer reset the stream without finishing it, the reader saw a clean end after {} bytes", job.id, r.read)));
+                    }
+                } else if r.w_err.is_none() && r.written == job.len as u64 && job.fate == Fate::ReadAll && r.r_err.is_none() {
                     if !r.fin {
                         out.push(("c18-lost-wakeup", format!("job {}: reader ended without seeing the end of the stream", job.id)));
                     } else if r.read < job.len as u64 {
@@ -2116,9 +2868,35 @@ fn run_case(seed: u64, case: u64) -> CaseOut {
     if panicked.is_none() {
         log.lock().unwrap().closing = true;
         // concurrent Endpoint::accept waiters are owed connection attempts only while the client still makes them
+        // … but once the server's endpoint is closed or its driver is lost, Endpoint::accept must yield None
+        let accept_must_end = matches!(plan.close, CloseKind::EndpointClose(SERVER) | CloseKind::RecvError(SERVER));
         for t in ex.tasks.iter() {
             if t.name.starts_with("app:server:main") {
-                t.tw.info.lock().unwrap().class = Class::EndpointLevel;
+                t.tw.info.lock().unwrap().class = if accept_must_end { Class::UntilClose } else { Class::EndpointLevel };
+            }
+        }
+        // endpoint driver loss: wait_idle waiters are already PARKED when the driver dies
+        if let CloseKind::RecvError(s) = plan.close {
+            let e = hs.lock().unwrap().endpoint[s].clone();
+            if let Some(e) = e {
+                let mut root = Ctx { w: world.clone(), tw: TaskWaker::new(Class::Job), log: log.clone(), h: hs.clone(), rng: Rng::new(rng.next()), plan: plan.clone() };
+                let kw = plan.sides[s].k_watch.max(1);
+                for w in 0..kw {
+                    let e = e.clone();
+                    root.spawn(format!("app:{}:wait_idle_early{w}", SIDE[s]), Class::Teardown, move |c| async move {
+                        c.set_op(&format!("wait_idle (parked before the driver is lost) waiter {w}/{kw}"));
+                        e.wait_idle().await;
+                        drop(e);
+                    });
+                }
+                drop(e);
+                let prefix = format!("app:{}:wait_idle_early", SIDE[s]);
+                let budget = ex.steps + 400;
+                if let RunEnd::Panicked(m) = run(&mut ex, false, far, &mut |e: &Exec| {
+                    e.steps >= budget || (e.w.l().spawnq.is_empty() && e.tasks.iter().filter(|t| t.name.starts_with(&prefix)).all(|t| t.polls > 0))
+                }) {
+                    panicked = Some(m);
+                }
             }
         }
         let r = catch_unwind(AssertUnwindSafe(|| -> Result<(), String> {
@@ -2158,6 +2936,21 @@ fn run_case(seed: u64, case: u64) -> CaseOut {
                     }
                 }
                 CloseKind::IdleTimeout => {}
+                CloseKind::RecvError(s) => {
+                    let mut w = world.l();
+                    w.recv_fail[s] = true;
+                    if let Some(wk) = w.rx_waker[s].take() {
+                        wk.wake();
+                    }
+                }
+                CloseKind::SendError(s) => {
+                    world.l().send_fail[s] = true;
+                    // make the connection transmit something (a MAX_STREAMS frame) so that it meets the error
+                    let c = hs.lock().unwrap().conn[s].clone();
+                    if let Some(c) = c {
+                        c.set_max_concurrent_uni_streams(VarInt::from_u32(plan.tc[s].max_uni + 1000));
+                    }
+                }
             }
             if let Some(s) = plan.drop_endpoint_early {
                 let name = format!("app:{}:main", SIDE[s]);
@@ -2178,6 +2971,11 @@ fn run_case(seed: u64, case: u64) -> CaseOut {
         }
         if panicked.is_none() {
             for s in 0..2 {
+                // (after a fatal send error the connection is dead but stays registered with its endpoint until
+                // the application drops its handles: wait_idle is not owed before phase 3)
+                if plan.close == CloseKind::SendError(s) {
+                    continue;
+                }
                 let e = hs.lock().unwrap().endpoint[s].clone();
                 if let Some(e) = e {
                     wait_idle_sides.push(s);
@@ -2205,14 +3003,37 @@ fn run_case(seed: u64, case: u64) -> CaseOut {
                 if matches!(end, RunEnd::Budget) && ex.steps > STEP_BUDGET {
                     fail("c18-livelock", format!("step budget exhausted after the close ({} steps)", ex.steps));
                 }
+                let fault = matches!(plan.close, CloseKind::RecvError(_) | CloseKind::SendError(_));
                 let stuck = pending_tasks(&ex, |_, c| matches!(c, Class::Job | Class::UntilClose));
                 if !stuck.is_empty() {
-                    fail("c18-close-does-not-wake", format!("close action {:?}: connection closed or lost, yet pending operations never completed: {}", plan.close, stuck.join(" | ")));
+                    if fault {
+                        fail("c18-driver-loss-does-not-wake", format!("{:?}: the socket failed with a fatal I/O error and the driver future ended; the connection can make no progress any more, yet pending operations never completed: {}", plan.close, stuck.join(" | ")));
+                    } else {
+                        fail("c18-close-does-not-wake", format!("close action {:?}: connection closed or lost, yet pending operations never completed: {}", plan.close, stuck.join(" | ")));
+                    }
                 }
                 let stuck = pending_tasks(&ex, |_, c| c == Class::Teardown);
                 if !stuck.is_empty() {
-                    fail("c18-lost-wakeup", format!("wait_idle never resolved although every connection is gone (close action {:?}): {}", plan.close, stuck.join(" | ")));
+                    if fault {
+                        fail("c18-driver-loss-does-not-wake", format!("{:?}: wait_idle never resolved although the endpoint driver is gone and no connection is left (a fresh wait_idle() returns at once): {}", plan.close, stuck.join(" | ")));
+                    } else {
+                        fail("c18-lost-wakeup", format!("wait_idle never resolved although every connection is gone (close action {:?}): {}", plan.close, stuck.join(" | ")));
+                    }
                 }
+            }
+        }
+    }
+    if panicked.is_none() {
+        // let the drivers digest what the last application poll produced (a Drained event on its way to the
+        // endpoint driver) before the bookkeeping is inspected; the clock does not move
+        for _ in 0..10_000 {
+            match ex.step() {
+                Step::Polled => {}
+                Step::Panicked(m) => {
+                    panicked = Some(m);
+                    break;
+                }
+                _ => break,
             }
         }
     }
@@ -2237,6 +3058,10 @@ fn run_case(seed: u64, case: u64) -> CaseOut {
         }
         drop(l);
         for s in wait_idle_sides.iter().copied() {
+            // (an endpoint whose driver is gone cannot process Drained events any more: not judged)
+            if plan.close == CloseKind::RecvError(s) {
+                continue;
+            }
             let e = hs.lock().unwrap().endpoint[s].clone();
             if let Some(e) = e {
                 let n = e.open_connections();
@@ -2336,6 +3161,8 @@ fn run_case(seed: u64, case: u64) -> CaseOut {
         CloseKind::DropHandles(_) => "drop-last-handle",
         CloseKind::EndpointClose(_) => "endpoint-close",
         CloseKind::IdleTimeout => "idle-timeout",
+        CloseKind::RecvError(_) => "recv-io-error",
+        CloseKind::SendError(_) => "send-io-error",
     })).or_default() += 1;
     *c.entry(if graceful { "close:after-workload".to_string() } else { "close:mid-workload".to_string() }).or_default() += 1;
     if plan.drop_endpoint_early.is_some() {
@@ -2357,13 +3184,18 @@ fn run_case(seed: u64, case: u64) -> CaseOut {
     }
     let jobs_done = l.jobs.values().filter(|j| j.w_done && j.r_done).count();
     let bytes: u64 = l.jobs.values().map(|j| j.read).sum();
+    if plan.zrtt.is_some() {
+        *c.entry("zrtt:cases".into()).or_default() += 1;
+    }
     let nontrivial = l.connected[0] && l.connected[1] && l.cancels > 0 && ex.polls_pending > 0;
     let sample = format!(
         "case {case}:{} close={:?} mid={:?} policy={:?} loss={}% tasks={} steps={} vtime={}ms jobs={} bytes={} cancels={} dgrams={}/{} closed=[{:?},{:?}] fails={}",
         if plan.multi { " multi-waiter" } else { "" }, plan.close, plan.mid, plan.policy, plan.net.loss_pct, ex.tasks.len(), ex.steps, (world.now() - SEC) / MS, jobs_done, bytes, l.cancels,
         l.dg_recv[0] + l.dg_recv[1], l.dg_sent[0] + l.dg_sent[1], l.closed[0], l.closed[1], l.fails.len()
     );
-    let out = CaseOut { fails: l.fails.clone(), counters: c, sig, polls: ex.polls_pending + ex.polls_ready, nontrivial, sample };
+    // every failure names its case (= the replay: `ASYNCSIM_CASE=<case> asyncsim <seed> <n> <prefix>`)
+    let fails: Vec<String> = l.fails.iter().map(|f| if f.contains(" case=") { f.clone() } else { f.replacen(' ', &format!(" case={case} "), 1) }).collect();
+    let out = CaseOut { fails, counters: c, sig, polls: ex.polls_pending + ex.polls_ready, nontrivial, sample };
     drop(l);
     if panicked.is_some() {
         // state behind a panic is unknown (poisoned locks): leak it rather than run destructors
